@@ -1051,6 +1051,9 @@ def rule_version_next(ctx, R):
                     inner = a[2][0][2][0]
                     ok = is_call(inner, "NonZero::get") and strip_epochs(inner[2][0]) == strip_epochs(cur_nz)
                     okd = dflt[0] in ("uneval", "const", "k") or dflt[0] == "agg"
+                elif is_call(a, "checked_add") and "NonZero" in a[1] and a[2][1] == ("const", 1) and strip_epochs(a[2][0]) == strip_epochs(cur_nz):
+                    # NonZero::checked_add(1) is None exactly where wrapping_add(1) would be zero: the same function
+                    ok = contains(dflt, lambda x: x[0] in ("uneval", "const", "k") and "VERSION_START" in str(x)) or dflt[0] in ("uneval", "const", "k", "agg")
             R.check(ok, "C08-R2", key + "|wrapping+1", "successor = wrapping_add(1), zero mapped to the start generation",
                     "wrapping build: next() yields %s; expected NonZero::new(self.version.get().wrapping_add(1)).unwrap_or(VERSION_START)" % show(v), where_of(fn), fn=fn.key)
             # no panic entry, no unchecked op
